@@ -191,7 +191,7 @@ def grid_shard(cells, b, p, pool_extra=1, budget=30000):
             pools[1] = [v for v in pools[1] if 0 <= v <= 3] if ts[1] in "ib" else pools[1]
         combos = [(vals, "normal") for vals in itertools.product(*pools)]
         # a thinned copy of the cell inside a true secret guard that contains a public-condition block (and the reverse nesting)
-        combos += [(vals, ("guard1p", "guardp1", "guard1")[k % 3]) for k, (vals, _) in enumerate(combos[::3])]
+        combos += [(vals, ("guard1p", "guardp1", "guard1", "guard11")[k % 4]) for k, (vals, _) in enumerate(combos[::3])]
         for vals, mode in combos:
             args = [(t, "priv" if i % 2 == 0 else "pub", v) for i, (t, v) in enumerate(zip(ts, vals))]
             status, cex, prog, nodes, m = judge_single(cfg, name, args, budget, mode)
